@@ -22,7 +22,7 @@ RULE = ("shapes: vectors 1-4, matrices r x c with r,c in 1..3 (13 shapes). eleme
         "different entries (or is a scalar aggregate of >=2 different entries).")
 ASSUMPTIONS = ["arr_size is judged on vectors only (for a matrix the library documents 'number of rows', numpy .size is rows*cols: ambiguous)",
                "an exception anywhere between construction and evaluation is 'rejected', allowed by the property for supported and unsupported forms alike"]
-REQUIRED = {"late_initial_values": 5, "second_use_entries": 20, "named_stock_entries": 15, "arrayed_stock_entries_over_time": 30, "accepted_equal": 300, "rejected_mismatch": 100, "entries_compared": 2000}
+REQUIRED = {"shrunk_arrays_compared": 5, "late_initial_values": 5, "second_use_entries": 20, "named_stock_entries": 15, "arrayed_stock_entries_over_time": 30, "accepted_equal": 300, "rejected_mismatch": 100, "entries_compared": 2000}
 BUDGET_S = {"quick": 100, "thorough": 1200}
 
 VEC = [(n,) for n in (1, 2, 3, 4)]
@@ -129,6 +129,8 @@ def gen_cases(tier, seed):
         # mismatching equation was rejected in the same model
         for tmpl in SECOND_USE:
             cases.append(dict(form="second_use", tmpl=tmpl, draw=d))
+        for tmpl in SHRINK:
+            cases.append(dict(form="shrink", tmpl=tmpl, draw=d))
         for s1 in SHAPES:
             for agg in AGGS:
                 ranks = [-1, 1, 2, 99] if agg == "rank" else [None]
@@ -404,8 +406,94 @@ def run_named_stock(case):
     return dict(verdict="held", nt="named_stock:" + tmpl, counters=counters)
 
 
+SHRINK = ["reassign_smaller_sum", "reassign_smaller_entries", "setup_smaller_sum", "matrix_fewer_columns_sum", "vector_over_matrix_sum",
+          "stock_smaller_expr", "stock_larger_expr", "stock_matrix_other_shape"]
+
+
+def run_shrink(case):
+    """An arrayed element that is given a SMALLER array than it held before (numpy: the new array replaces the old one), and a dimensioned
+    arrayed stock that is given an expression of another size (numpy: shapes do not match - no result)."""
+    from BPTK_Py import Model
+    d = case["draw"]
+    m = Model(starttime=0.0, stoptime=3.0, dt=1.0, name="shrink")
+    A3, B3, A2, B2 = values([3], d, 61), values([3], d, 62), values([2], d, 63), values([2], d, 64)
+    M23, N23, M22 = values([2, 3], d, 65), values([2, 3], d, 66), values([2, 2], d, 67)
+    a3, b3, a2, b2 = make_el(m, "converter", "a3", A3), make_el(m, "converter", "b3", B3), make_el(m, "converter", "a2", A2), make_el(m, "converter", "b2", B2)
+    tmpl = case["tmpl"]
+    counters = {"shrink_forms": 1}
+    expected, must_reject = None, False
+    try:
+        if tmpl in ("reassign_smaller_sum", "reassign_smaller_entries"):
+            c = m.converter("c")
+            c.equation = a3 + b3
+            _ = float(c[2](0.0))
+            c.equation = a2 + b2
+            if tmpl.endswith("sum"):
+                s_ = m.converter("s_")
+                s_.equation = c.arr_sum()
+                got, expected = np.array(float(s_(1.0))), np.array(float(np.sum(A2 + B2)))
+            else:
+                expected = A2 + B2
+                got = read(c, expected.shape, 1.0)
+        elif tmpl == "setup_smaller_sum":
+            c = m.converter("c")
+            c.setup_vector(3, [float(x) for x in A3])
+            c.setup_vector(2, [float(x) for x in A2])
+            s_ = m.converter("s_")
+            s_.equation = c.arr_sum()
+            got, expected = np.array(float(s_(1.0))), np.array(float(np.sum(A2)))
+        elif tmpl == "matrix_fewer_columns_sum":
+            c = m.converter("c")
+            c.setup_matrix([2, 3], [[float(x) for x in r] for r in M23])
+            c.setup_matrix([2, 2], [[float(x) for x in r] for r in M22])
+            s_ = m.converter("s_")
+            s_.equation = c.arr_sum()
+            got, expected = np.array(float(s_(1.0))), np.array(float(np.sum(M22)))
+        elif tmpl == "vector_over_matrix_sum":
+            mm, nn = make_el(m, "converter", "mm", M23), make_el(m, "converter", "nn", N23)
+            c = m.converter("c")
+            c.equation = mm + nn
+            c.equation = a2 + b2
+            expected = A2 + B2
+            got = read(c, expected.shape, 1.0)
+        else:
+            must_reject = True
+            S = m.stock("S")
+            if tmpl == "stock_smaller_expr":
+                S.setup_vector(3, [0.0, 0.0, 0.0])
+                S.equation = a2 + b2
+                got = [float(S[i](2.0)) for i in range(3)]
+            elif tmpl == "stock_larger_expr":
+                S.setup_vector(2, [0.0, 0.0])
+                S.equation = a3 + b3
+                got = [float(S[i](2.0)) for i in range(2)]
+            else:
+                mm, nn = make_el(m, "converter", "mm", M23), make_el(m, "converter", "nn", N23)
+                S.setup_matrix([2, 2], [[0.0, 0.0], [0.0, 0.0]])
+                S.equation = mm + nn
+                got = [[float(S[i][j](2.0)) for j in range(2)] for i in range(2)]
+    except ShapeMismatch as e:
+        return dict(verdict="violated", counters=counters, mech="shape:shrink", witness=dict(case=case, error=str(e)))
+    except Exception as e:
+        if must_reject:
+            counters["rejected_mismatch"] = 1
+            return dict(verdict="rejected", counters=counters, sample=dict(case=case, why="%s: %s" % (type(e).__name__, str(e)[:100])))
+        counters["rejected_supported"] = 1
+        return dict(verdict="rejected", counters=counters, sample=dict(case=case, why="%s: %s" % (type(e).__name__, str(e)[:100])))
+    if must_reject:
+        return dict(verdict="violated", counters=counters, mech="mismatch-accepted:stock", witness=dict(case=case, got=got))
+    counters["entries_compared"] = int(np.asarray(expected).size)
+    counters["shrunk_arrays_compared"] = 1
+    if not np.allclose(got, expected, rtol=1e-9, atol=1e-12):
+        return dict(verdict="violated", counters=counters, mech="value:stale-members-after-shrinking", witness=dict(case=case, expected=np.asarray(expected).tolist(), got=np.asarray(got).tolist()))
+    counters["accepted_equal"] = 1
+    return dict(verdict="held", nt="shrink:" + tmpl, counters=counters)
+
+
 def run_case(case):
     from BPTK_Py import Model
+    if case["form"] == "shrink":
+        return run_shrink(case)
     if case["form"] == "stock_tv":
         return run_stock_tv(case)
     if case["form"] == "named_stock":
